@@ -2,6 +2,8 @@ import NssVerif.RealInst
 import NssVerif.Model.Radio
 import NssVerif.Gen.RadioBins
 import NssVerif.Lemmas.Radio
+import NssVerif.Lemmas.RadioSrc
+import NssVerif.Gen.Src.C20
 import Mathlib.Tactic.Ring
 import Mathlib.Tactic.Linarith
 import Mathlib.Tactic.Positivity
@@ -26,7 +28,7 @@ for geometrically consistent inputs (so a NaN can only come from rounding), and 
 denominator is strictly positive.
 -/
 
-open Real ScalarReal Model.Radio RadioLemmas
+open Real ScalarReal Model.Radio RadioLemmas RadioSrcLemmas
 namespace C20
 
 /-- the event with its shower energy replaced (same geometry, same random numbers) -/
@@ -476,5 +478,202 @@ example : tableCentres Gen.RadioBins.fcenter 30 40 = [35] ∧ antCentres 30 40 =
 /-- the number of bands the theorem covers -/
 example : ((List.range 166).flatMap fun b => (List.range b).map fun a => (a, b)).length = 13695 := by
   decide +kernel
+
+/-! ### source tie: the functions translated from the Python source of the working tree ARE the model
+
+`Gen/Src/C20.lean` is regenerated from `eas_radio/radio.py`, `eas_radio/radio_antenna.py` and
+`eas_optical/detector_geometry.py` on every run (harness/pytrans.py, harness/srcspecs/C20.py).  The radio chain works on
+(events × frequency bins) arrays; the translation is its elementwise view (one event, one bin), with the table look-ups
+(the parameter row of the nearest node, the ionosphere row) and the random numbers as inputs.
+
+`rfl`-theorems hold for every `Scalar` instance (ℝ and `Float`).  The others are proved over ℝ because the source spells
+some constants as integers (`2`, `4`, `1`, `5`, `287`, `50` where the model has `2.0` …: different `Scalar` terms, equal
+reals), multiplies by `np.ones_like` arrays, and guards with `np.minimum` / `np.clip`, which the translator reads as
+`minS` / `maxS` (equal to the model's NaN-keeping `capOne` / `clipUnit` on every real number). -/
+
+/-- `detector_geometry.distance_to_detector` (with `viewing_angle`, `shower_properties.propagation_angle` inlined) -/
+theorem src_distToDet {α : Type} [Scalar α] (beta z zdet re : α) :
+    Gen.Src.C20.distToDet beta z zdet re = distToDet beta z zdet re := by
+  rfl
+
+/-- the elementwise part of `RadioEFieldParams.__call__` on the parameter row the look-up selected (zenith and height only
+enter the look-up) -/
+theorem src_fieldBin {α : Type} [Scalar α] (zen va h : α) (p : Par α) :
+    Gen.Src.C20.fieldBin zen va h p.e0 p.peak p.w p.e1 p.w2 = fieldBin va p := by
+  rfl
+
+/-- `EASRadio.get_decay_view`; over ℝ: the source writes `2 * losDist` and caps with `np.minimum` -/
+theorem src_decayView (theta L l : ℝ) :
+    Gen.Src.C20.decayView theta L l = decayView theta L l := by
+  unfold Gen.Src.C20.decayView decayView s2phi
+  simp only [minS_one_eq_capOne, ofNat_eq]
+  src_arith
+
+/-- `IonosphereParams.__call__` on the selected row; over ℝ: the source writes `1 + (…)**2` -/
+theorem src_ionoScale (e t : ℝ) (r : IonoRow ℝ) :
+    Gen.Src.C20.ionoScale e r.p0 r.p1 r.p2 r.p3 t = ionoScale r t := by
+  unfold Gen.Src.C20.ionoScale ionoScale
+  simp only [ofNat_eq]
+  src_arith
+
+/-- `voltage_from_field`; over ℝ: the source writes `2 * Efield`, `4 * np.pi` -/
+theorem src_voltageFromField (e f gain : ℝ) :
+    Gen.Src.C20.voltageFromField e f gain = voltageFromField e f gain := by
+  unfold Gen.Src.C20.voltageFromField voltageFromField
+  simp only [ofNat_eq]
+  src_arith
+
+/-- `sky_noise`; over ℝ: the source writes `5 * …`, `1 - …`, `2 * fhz` -/
+theorem src_skyNoise (f : ℝ) : Gen.Src.C20.skyNoise f = skyNoise f := by
+  unfold Gen.Src.C20.skyNoise skyNoise
+  simp only [ofNat_eq]
+  src_arith
+
+/-- `noise_voltage` (with `sky_noise` inlined, `df` = its default 10 MHz); over ℝ: `287 * np.ones_like`, `100.0 * np.ones_like`, `Z_load = 50` -/
+theorem src_noiseVoltage (f h : ℝ) : Gen.Src.C20.noiseVoltage f h = noiseVoltage h f := by
+  unfold Gen.Src.C20.noiseVoltage noiseVoltage tComb skyFrac skyNoise binWidth
+  simp only [ofNat_eq]
+  src_arith
+
+
+/-- `calculate_snr` on a five-bin band with both `np.sum` unrolled (the frequency list is an input; `Nants` is the cast
+of a natural number as in the model) -/
+theorem src_calculateSnr5 (e0 e1 e2 e3 e4 f0 f1 f2 f3 f4 h gain : ℝ) (n : ℕ) :
+    Gen.Src.C20.calculateSnr5 e0 e1 e2 e3 e4 h (Scalar.ofNat n) gain f0 f1 f2 f3 f4
+      = snrRow [f0, f1, f2, f3, f4] h n gain [e0, e1, e2, e3, e4] := by
+  have hs : Gen.Src.C20.calculateSnr5 e0 e1 e2 e3 e4 h (Scalar.ofNat n) gain f0 f1 f2 f3 f4
+      = Scalar.sum [Scalar.ofNat n * Gen.Src.C20.voltageFromField e0 f0 gain, Scalar.ofNat n * Gen.Src.C20.voltageFromField e1 f1 gain,
+          Scalar.ofNat n * Gen.Src.C20.voltageFromField e2 f2 gain, Scalar.ofNat n * Gen.Src.C20.voltageFromField e3 f3 gain,
+          Scalar.ofNat n * Gen.Src.C20.voltageFromField e4 f4 gain]
+        / Scalar.sqrt (Scalar.ofNat n * Scalar.sum [Gen.Src.C20.noiseVoltage f0 h * Gen.Src.C20.noiseVoltage f0 h,
+          Gen.Src.C20.noiseVoltage f1 h * Gen.Src.C20.noiseVoltage f1 h, Gen.Src.C20.noiseVoltage f2 h * Gen.Src.C20.noiseVoltage f2 h,
+          Gen.Src.C20.noiseVoltage f3 h * Gen.Src.C20.noiseVoltage f3 h, Gen.Src.C20.noiseVoltage f4 h * Gen.Src.C20.noiseVoltage f4 h]) := by rfl
+  rw [hs]
+  simp only [src_voltageFromField, src_noiseVoltage]
+  rfl
+
+/-- `calculate_snr` on a one-bin band -/
+theorem src_calculateSnr1 (e0 f0 h gain : ℝ) (n : ℕ) :
+    Gen.Src.C20.calculateSnr1 e0 h (Scalar.ofNat n) gain f0 = snrRow [f0] h n gain [e0] := by
+  have hs : Gen.Src.C20.calculateSnr1 e0 h (Scalar.ofNat n) gain f0
+      = Scalar.sum [Scalar.ofNat n * Gen.Src.C20.voltageFromField e0 f0 gain]
+        / Scalar.sqrt (Scalar.ofNat n * Scalar.sum [Gen.Src.C20.noiseVoltage f0 h * Gen.Src.C20.noiseVoltage f0 h]) := by rfl
+  rw [hs]
+  simp only [src_voltageFromField, src_noiseVoltage]
+  rfl
+
+/-- the shape of `EASRadio.__call__` for one bin of one event, for every `Scalar` instance: the translated source is this
+arrangement of the model's functions (mask as a 0/1 factor, three masked stores, the two inverse-trigonometric guards as
+`np.minimum` / `np.clip`, `B_angle = ones; B_angle *= …`) -/
+theorem src_efieldCall_shape {α : Type} [Scalar α] (detAlt : α) (ev : Ev α) (p : Par α) :
+    Gen.Src.C20.efieldCall ev.beta ev.alt ev.len ev.theta ev.path ev.energy detAlt ev.uB ev.uA p.e0 p.peak p.w p.e1 p.w2
+      = (let m := inRange ev.alt
+         let e1 := fieldBin (Scalar.degrees (if m then Gen.Src.C20.decayView ev.theta ev.path ev.len else 0.0)) p * maskVal ev.alt
+         let e2 := if m then e1 * ev.energy / 10.0 else e1
+         let e3 := if m then e2 * distScale detAlt ev else e2
+         let B := Scalar.abs (Scalar.sin (1.0 * (Scalar.pi / 2.0 - Scalar.acos (Scalar.minS (Scalar.maxS (bArg ev.len ev.alt) (-1.0)) 1.0)) + ev.uB))
+         let e4 := if m then 1.0 / 6.0 * e3 * Scalar.sin ev.uA + 5.0 / 6.0 * e3 * B else e3
+         if Scalar.ltb 90.0 detAlt then e4 else e4) := by
+  rfl
+
+/-- `EASRadio.__call__` (no ionosphere section) for one bin of one event is the model's per-bin field -/
+theorem src_efieldCall (detAlt : ℝ) (ev : Ev ℝ) (p : Par ℝ) :
+    Gen.Src.C20.efieldCall ev.beta ev.alt ev.len ev.theta ev.path ev.energy detAlt ev.uB ev.uA p.e0 p.peak p.w p.e1 p.w2
+      = binField detAlt ev 1 p := by
+  rw [src_efieldCall_shape]
+  simp only [ite_self, src_decayView, clip_eq_clipUnit]
+  unfold binField
+  cases h : inRange ev.alt
+  · simp
+  · simp only [if_true, mix, bAngle, mul_one]
+    norm_num
+
+
+/-- the shape of `EASRadio.__call__` with a supported ionosphere section, for every `Scalar` instance -/
+theorem src_efieldCallIono_shape {α : Type} [Scalar α] (detAlt : α) (ev : Ev α) (p : Par α) (r : IonoRow α) (t : α) :
+    Gen.Src.C20.efieldCallIono ev.beta ev.alt ev.len ev.theta ev.path ev.energy detAlt ev.uB ev.uA p.e0 p.peak p.w p.e1 p.w2
+        r.p0 r.p1 r.p2 r.p3 t
+      = (let m := inRange ev.alt
+         let e1 := fieldBin (Scalar.degrees (if m then Gen.Src.C20.decayView ev.theta ev.path ev.len else 0.0)) p * maskVal ev.alt
+         let e2 := if m then e1 * ev.energy / 10.0 else e1
+         let e3 := if m then e2 * distScale detAlt ev else e2
+         let e4 := if m then e3 * Gen.Src.C20.ionoScale e3 r.p0 r.p1 r.p2 r.p3 t else e3
+         let B := Scalar.abs (Scalar.sin (1.0 * (Scalar.pi / 2.0 - Scalar.acos (Scalar.minS (Scalar.maxS (bArg ev.len ev.alt) (-1.0)) 1.0)) + ev.uB))
+         let a := if m then 1.0 / 6.0 * e4 * Scalar.sin ev.uA + 5.0 / 6.0 * e4 * B else e4
+         let b := if m then 1.0 / 6.0 * e3 * Scalar.sin ev.uA + 5.0 / 6.0 * e3 * B else e3
+         if Scalar.ltb 90.0 detAlt then a else b) := by
+  rfl
+
+/-- `EASRadio.__call__` (supported ionosphere section): above 90 km the drawn-TEC factor of the selected row is applied -/
+theorem src_efieldCallIono (detAlt : ℝ) (ev : Ev ℝ) (p : Par ℝ) (r : IonoRow ℝ) (t : ℝ) :
+    Gen.Src.C20.efieldCallIono ev.beta ev.alt ev.len ev.theta ev.path ev.energy detAlt ev.uB ev.uA p.e0 p.peak p.w p.e1 p.w2
+        r.p0 r.p1 r.p2 r.p3 t
+      = binField detAlt ev (if Scalar.gtb detAlt (90.0 : ℝ) then ionoScale r t else 1) p := by
+  rw [src_efieldCallIono_shape]
+  simp only [src_decayView, clip_eq_clipUnit, src_ionoScale]
+  unfold binField
+  have hg : Scalar.ltb (90.0 : ℝ) detAlt = Scalar.gtb detAlt (90.0 : ℝ) := by rfl
+  rw [hg]
+  cases h : inRange ev.alt <;> cases hd : Scalar.gtb detAlt (90.0 : ℝ)
+  · simp
+  · simp
+  · simp only [if_true, Bool.false_eq_true, if_false, mix, bAngle, mul_one]
+    norm_num
+  · simp only [if_true, mix, bAngle]
+    norm_num
+
+/-- **the model row IS the translated source mapped over the bins** (no ionosphere section in the configuration) -/
+theorem src_efieldRow (lo hi : Int) (detAlt : ℝ) (pars : List (Par ℝ)) (ev : Ev ℝ) :
+    efieldRow lo hi detAlt none pars ev
+      = (cut lo hi pars).map fun p =>
+          Gen.Src.C20.efieldCall ev.beta ev.alt ev.len ev.theta ev.path ev.energy detAlt ev.uB ev.uA p.e0 p.peak p.w p.e1 p.w2 := by
+  simp only [src_efieldCall]
+  unfold efieldRow rawRow applyIono binField
+  cases h : inRange ev.alt
+  · simp [List.map_map]
+  · simp only [if_true, List.map_map]
+    apply List.map_congr_left
+    intro p _
+    simp
+
+/-- … with a supported ionosphere section: the row that `ionoActive` selects is applied above 90 km -/
+theorem src_efieldRow_iono (lo hi : Int) (detAlt : ℝ) (r : IonoRow ℝ) (pars : List (Par ℝ)) (ev : Ev ℝ)
+    (hlen : (cut lo hi pars).length ≤ ev.tec.length) :
+    efieldRow lo hi detAlt (if Scalar.gtb detAlt (90.0 : ℝ) then some r else none) pars ev
+      = List.zipWith (fun p t =>
+          Gen.Src.C20.efieldCallIono ev.beta ev.alt ev.len ev.theta ev.path ev.energy detAlt ev.uB ev.uA p.e0 p.peak p.w p.e1 p.w2
+            r.p0 r.p1 r.p2 r.p3 t) (cut lo hi pars) ev.tec := by
+  simp only [src_efieldCallIono]
+  cases hd : Scalar.gtb detAlt (90.0 : ℝ)
+  · simp only [Bool.false_eq_true, if_false]
+    rw [zipWith_const_right _ _ _ hlen]
+    unfold efieldRow rawRow applyIono binField
+    cases h : inRange ev.alt
+    · simp [List.map_map]
+    · simp only [if_true, List.map_map]
+      apply List.map_congr_left
+      intro p _
+      simp
+  · simp only [if_true]
+    unfold efieldRow rawRow applyIono binField
+    cases h : inRange ev.alt
+    · simp only [Bool.false_eq_true, if_false, List.map_map]
+      rw [zipWith_const_right _ _ _ hlen]
+      apply List.map_congr_left
+      intro p _
+      simp
+    · simp only [if_true, List.map_map, List.map_zipWith, List.zipWith_map_left]
+      rfl
+
+/-- … stated on the row `ionoActive` selects: section present, TEC ≥ 0, TEC error ≤ 10, parameters found for the band -/
+theorem src_efieldRow_ionoActive (lo hi : Int) (detAlt tec tecErr : ℝ) (tbl : List (IonoRow ℝ)) (r : IonoRow ℝ)
+    (pars : List (Par ℝ)) (ev : Ev ℝ) (h0 : 0 ≤ tec) (h1 : tecErr ≤ 10) (hf : ionoFind tbl lo hi tec = some r)
+    (hlen : (cut lo hi pars).length ≤ ev.tec.length) :
+    efieldRow lo hi detAlt (ionoActive detAlt true tec tecErr tbl lo hi) pars ev
+      = List.zipWith (fun p t =>
+          Gen.Src.C20.efieldCallIono ev.beta ev.alt ev.len ev.theta ev.path ev.energy detAlt ev.uB ev.uA p.e0 p.peak p.w p.e1 p.w2
+            r.p0 r.p1 r.p2 r.p3 t) (cut lo hi pars) ev.tec := by
+  rw [ionoActive_supported detAlt tec tecErr tbl lo hi r h0 h1 hf]
+  exact src_efieldRow_iono lo hi detAlt r pars ev hlen
 
 end C20
